@@ -133,6 +133,11 @@ var useOddNames bool
 // that still speaks the old encoding does so for every leaf), so that such values meet each other on one leaf.
 var useLegacyVals bool
 
+// useStarNames: in one scenario out of twelve (C02/C03 profiles) updates may name an element or a key value that is
+// literally "*" (a catch-all selector is a legal list key). Such scenarios carry no delete notifications: for a leaf
+// stored under a literal "*" the per-leaf delete announcement cannot be told from a wildcard delete (DESIGN.md 10.9).
+var useStarNames bool
+
 func genElem(t *rapid.T, glob, small bool) gn.Elem {
 	alpha := names
 	if small {
@@ -146,6 +151,8 @@ func genElem(t *rapid.T, glob, small bool) gn.Elem {
 	}
 	if glob {
 		alpha = append(append([]string{}, alpha...), "*", "*")
+	} else if useStarNames {
+		alpha = append(append([]string{}, alpha...), "*")
 	}
 	e := gn.Elem{Name: rapid.SampledFrom(alpha).Draw(t, "name")}
 	if !small && e.Name != "*" && rapid.IntRange(0, 5).Draw(t, "keyed") == 0 {
@@ -154,7 +161,7 @@ func genElem(t *rapid.T, glob, small bool) gn.Elem {
 		for i := 0; i < nk; i++ {
 			k := rapid.SampledFrom([]string{"k", "j", "K"}).Draw(t, "key")
 			vals := []string{"1", "2"}
-			if glob {
+			if glob || useStarNames {
 				vals = []string{"1", "2", "*"}
 			}
 			e.Keys[k] = rapid.SampledFrom(vals).Draw(t, "kval")
@@ -381,6 +388,7 @@ func genScenario(prop string) func(t *rapid.T) *Scenario {
 		}
 		useOddNames = rapid.IntRange(0, 4).Draw(t, "odd-names") == 0
 		useLegacyVals = rapid.IntRange(0, 7).Draw(t, "legacy-values") == 3
+		useStarNames = (prop == "C02" || prop == "C03") && rapid.IntRange(0, 11).Draw(t, "star-names") == 7
 		sc := &Scenario{Targets: rapid.IntRange(pr.minTargets, pr.maxTargets).Draw(t, "targets")}
 		sc.EventDriven = rapid.IntRange(0, 3).Draw(t, "eventdriven") > 0
 		if pr.threshold && rapid.IntRange(0, 2).Draw(t, "usethr") == 0 {
@@ -392,6 +400,17 @@ func genScenario(prop string) func(t *rapid.T) *Scenario {
 		if len(sc.Steps) < 12 && rapid.IntRange(0, 3).Draw(t, "longer") > 0 {
 			// rapid's slice lengths are skewed towards short ones; histories need some length
 			sc.Steps = append(sc.Steps, rapid.SliceOfN(rapid.Custom(genStep(pr, sc.Targets, sc.Threshold)), 12, 24).Draw(t, "more")...)
+		}
+		if useStarNames {
+			for i := range sc.Steps {
+				if n := sc.Steps[i].N; n != nil {
+					n.Deletes, n.Pick = nil, 0
+					if len(n.Updates) == 0 && n.Bulk == nil {
+						n.Updates = []Upd{{Path: genElems(t, 1, 2, false, pr.small), Val: genVal(t)}}
+					}
+				}
+			}
+			useStarNames = false
 		}
 		if prop == "C15" && rapid.IntRange(0, 3).Draw(t, "path-origins") == 2 {
 			// C15 only (its laws are about counters, which do not depend on how a removal is announced; for the
